@@ -23,7 +23,7 @@ func init() {
 		ID: "C15", Level: "exploration",
 		Rule: "cases = chains driven by the MT director (issue-class / mint new or existing / edit / transfer incl. to self / burn / transfer-class by owners and strangers, amounts over the whole uint64 range incl. balance+1, 2^64-1 and sums that overflow); after every successful tx the complete MT state (classes, tokens, supplies, raw balance store walk) is compared with an arbitrary-precision reference ledger; non-trivial = successful tx or targeted hostile rejection; distinct = distinct (op, actor role, amount class, outcome)",
 		Assume: []string{"a failed tx leaves no trace because BaseApp drops its branch"},
-		Cases:  func(t string) int { return tierN(t, 8, 48) },
+		Cases:  func(t string) int { return tierN(t, 16, 48) },
 		Run:    runMT,
 	})
 }
